@@ -231,6 +231,20 @@ CHECKS = {
         "(stated, with G.* it gives the RFC rule for the pytz provider); dateutil rrulestr / tzical external. 'other': the zoneinfo path is "
         "interpreted by dateutil and only explored.",
    technique="contract-based deductive verification: pyvc/seqs VCs on the real get_transitions tail and cache functions (z3), finite rounding lemma, statement-shape contracts; bounded RFC-oracle stand-in"),
+ "C13": dict(
+   category="other", design_ref="DESIGN.md section 8 C13",
+   text="What contracts decide for EVERY tzinfo object (pyvc on the real search block of Timezone.from_tzinfo, step list read from the "
+        "class body and unrolled, inner while by an invariant derived from its own condition, tzinfo readings / + / normalize "
+        "uninterpreted, both arithmetic models): after a round the reading (utcoffset, tzname, dst) at `end` is the observance's, one "
+        "finest step later it differs (boundary exact to the second), the next round starts exactly there, and every interval is recorded "
+        "under offsets, name and kind of its start; construction loop and from_tzid by statement shape (each observance gets DTSTART, "
+        "TZOFFSETFROM, TZOFFSETTO, TZNAME; TZID). NOT decided by any contract within reach: that nothing changes between two probes "
+        "(false for real zones: C13-F2) and what the recorded wall times mean (C13-F1, pinned by the project's tests) - so the property-level "
+        "comparison of the generated component with the source zone (RFC onset rule and to_tz, every transition -1 s / 0 / +1 s, "
+        "midpoints, 6-hour grid; all zones in the thorough tier) is a labelled bounded stand-in and never counted as proved.",
+   note="Trusted: pyvc + z3, the while rule (entry / preservation VCs), uninterpreted tzinfo behaviour. The deductive obligations bound the "
+        "search's internal correctness; agreement with the source zone is explored only.",
+   technique="contract-based deductive verification of the search block (pyvc VCs with a derived while-invariant, z3) + statement-shape contracts; property-level agreement with the source zone: bounded stand-in (exploration)"),
 }
 NA_REASON = "check not built yet (build round in progress; DESIGN.md section 8 describes the planned contracts)"
 
